@@ -13,9 +13,10 @@ CONSTANTS MaxBatch,     \* documents per batch
           Modes,        \* chunk modes
           Emit          \* TRUE: print walks
 
-VARIABLES nextSid, nextFile, hist
+VARIABLES nextSid, nextFile, hist,
+          lin       \* SegId -> set of builds the segment descends from
 
-vars == <<segs, files, lcm, nextSid, nextFile, hist>>
+vars == <<segs, files, lcm, nextSid, nextFile, hist, lin>>
 
 \* sequences of length 0..n over S
 SeqsUpTo(S, n) == UNION { [1..k -> S] : k \in 0..n }
@@ -27,7 +28,7 @@ BatchOf(ix) == [i \in 1..Len(ix) |-> Catalogue[ix[i]]]
 Out(act) == IF Emit THEN PrintT(<<"WALK", ToJson([acts |-> Append(hist, act)])>>) ELSE TRUE
 
 Init ==
-  /\ LifeInit /\ nextSid = 0 /\ nextFile = 0 /\ hist = <<>>
+  /\ LifeInit /\ nextSid = 0 /\ nextFile = 0 /\ hist = <<>> /\ lin = <<>>
   /\ IF Emit THEN PrintT(<<"CATALOG", ToJson([docs |-> Catalogue])>>) ELSE TRUE
 
 Rec(act) == hist' = Append(hist, act) /\ Out(act)
@@ -37,6 +38,7 @@ DoBuild ==
   /\ \E ix \in SeqsUpTo(Docs, MaxBatch), m \in Modes :
        /\ Build(nextSid, BatchOf(ix), m)
        /\ Rec([op |-> "build", batch |-> ix, mode |-> m])
+  /\ lin' = Put(lin, nextSid, {nextSid})
   /\ nextSid' = nextSid + 1 /\ UNCHANGED nextFile
 
 \* persist immediately followed by open (one walk step; two trace events)
@@ -47,6 +49,7 @@ DoPersistOpen ==
        /\ files' = Put(files, nextFile, [c |-> segs[s].c])
        /\ segs' = Put(segs, nextSid, [c |-> segs[s].c, kind |-> "mmap", refs |-> 1])
        /\ Rec([op |-> "persistopen", sid |-> s])
+       /\ lin' = Put(lin, nextSid, lin[s])
   /\ nextSid' = nextSid + 1 /\ nextFile' = nextFile + 1 /\ UNCHANGED lcm
 
 \* named deviation (known finding, DESIGN 6 #5): the output of a merge without survivors is not merged again
@@ -61,6 +64,11 @@ DoMergeOpen ==
        \E Ds \in { D \in [1..Len(ins) -> SUBSET (0..3)] : \A i \in 1..Len(ins) : D[i] \in DropChoices(ins[i]) } :
        \E nils \in [1..Len(ins) -> BOOLEAN] :
          /\ \A i \in 1..Len(ins) : nils[i] => Ds[i] = {}
+         \* input domain: vector ids are unique across the inputs of a merge, i.e. inputs with vectors
+         \* do not descend from the same build (a segment is not merged with a copy of itself)
+         /\ (\E i \in 1..Len(ins) : VecFieldsOf(segs[ins[i]].c) # {}) =>
+               \A i, j \in 1..Len(ins) : i # j => lin[ins[i]] \cap lin[ins[j]] = {}
+         /\ lin' = Put(lin, nextSid, UNION { lin[ins[i]] : i \in 1..Len(ins) })
          /\ LET mc == MergeResult(ins, Ds, m) IN
             /\ files' = Put(files, nextFile, [c |-> mc])
             /\ segs' = Put(segs, nextSid, [c |-> mc, kind |-> "mmap", refs |-> 1])
@@ -70,13 +78,13 @@ DoMergeOpen ==
 
 DoClose ==
   /\ \E s \in DOMAIN segs : Close(s) /\ Rec([op |-> "close", sid |-> s])
-  /\ UNCHANGED <<nextSid, nextFile>>
+  /\ UNCHANGED <<nextSid, nextFile, lin>>
 
 Next == DoBuild \/ DoPersistOpen \/ DoMergeOpen \/ DoClose
 
 Spec == Init /\ [][Next]_vars
 
-View == <<segs, files, lcm, nextSid, nextFile>>
+View == <<segs, files, lcm, nextSid, nextFile, lin>>
 
 ----------------------------------------------------------------------------
 \* persist/open and merge/open preserve what the laws say (design-level)
